@@ -807,10 +807,11 @@ class Tr:
                 % (norm(got[1]) if got else None))
         self.fmt = (mm.group(1), mm.group(2) == "0", int(mm.group(3) or 1))
         got = fns.get("get_register")
-        mm = got and re.fullmatch(r"if (.+) \{ Some\(self\.get_register_always\(reg\)\) \} else \{ None \}", norm(got[1]))
+        mm = got and re.fullmatch(r"if (.+) \{ Some\((.+)\) \} else \{ None \}", norm(got[1]))
         if not mm:
             die("context.rs: default body of CpuContext::get_register has an unexpected shape: %r" % (norm(got[1]) if got else None))
         self.get_register_cond = self.accessor(mm.group(1), None, "context.rs trait CpuContext get_register condition", recv="self", want="bool")
+        self.get_register_val_text = mm.group(2)      # parsed per type (the value has the type's Register width)
         got = fns.get("memoize_register")
         self.default_memo_tbl_of = self.memo_table_arg(norm(got[1]) if got else "", None, "context.rs: default body of CpuContext::memoize_register")
         got = fns.get("valid_registers")
@@ -902,8 +903,10 @@ class Tr:
         for v, rhs in seen.items():
             out[v]["md_get"] = self.accessor(rhs, variants[v], w + "get_register_always " + v)
         seen, pre, post = arms_of("get_register", r"&self\.raw")
-        if pre != "let valid =" or post != "; if valid { Some(self.get_register_always(reg)) } else { None }":
+        pm = re.fullmatch(r"; if valid \{ Some\((.+)\) \} else \{ None \}", post)
+        if pre != "let valid =" or not pm:
             die(w + "get_register: shape changed: %r ... %r" % (pre, post))
+        self.md_get_val = self.accessor(pm.group(1), None, w + "get_register (the value returned)", recv="self", want=64)
         for v, rhs in seen.items():
             out[v]["md_valid"] = self.accessor(rhs, variants[v], w + "get_register " + v, want="bool")
         seen, pre, post = arms_of("valid_registers", r"&self\.raw")
@@ -1072,6 +1075,9 @@ class Tr:
             for key in ("md_get", "md_valid", "md_filter", "md_size"):
                 t[key] = disp[v][key]
             t["md_regs_val"] = self.md_regs_val
+            t["md_get_val"] = self.md_get_val
+            t["get_val"] = self.accessor(self.get_register_val_text, cname, "context.rs trait CpuContext get_register (the value returned), instantiated at " + cname,
+                                         recv="self", want=t["width"])
 
             def regs_of(who, where):
                 if who is None:
@@ -1249,6 +1255,8 @@ def emit(tables):
                  % (show_aexp(t["valid_all"]), show_aexp(t["valid_default"]), "own body" if t["custom_valid"] else "trait default"))
         o.append("  (* get_register: Some(get_register_always(reg)) when %s *)" % show_aexp(t["get_cond"]))
         o.append("  ct_get_cond := %s;" % coq_bexp(t["get_cond"]))
+        o.append("  (* ... and returns Some(%s); MinidumpContext::get_register returns Some(%s) *)" % (show_aexp(t["get_val"]), show_aexp(t["md_get_val"])))
+        o.append("  ct_get_val := %s; ct_md_get_val := %s;" % (coq_aexp(t["get_val"]), coq_aexp(t["md_get_val"])))
         o.append("  ct_valid_all := %s;" % coq_bexp(t["valid_all"]))
         o.append("  ct_valid_default := %s;" % coq_bexp(t["valid_default"]))
         o.append("  (* format_register: prefix %r, %s-padded to size_of::<Register>() * %d lower-case hex digits *)"
